@@ -549,6 +549,9 @@ fn wire_sig(s: &ST) -> String {
         ST::Slice(i) => format!("L[{}]", wire_sig(i)),
         ST::Reference(i) => format!("R[{}]", wire_sig(i)),
         ST::Str(_) => "str".into(),
+        // trait definitions are leaves for the mutation generator: their comparison is directional (bounds,
+        // method sets) and not part of the wire-layout changes the property lists
+        ST::Trait(..) | ST::FnClosure(..) | ST::Future(..) => "trait-object".into(),
         other => format!("{:?}", to_schema(other, false)),
     }
 }
